@@ -530,7 +530,45 @@ def rule_correlation(F, ev, R, config, rule="R-CORRELATION"):
             msg = "result not allocated with the covariance's shape"
         ok = okv and okloops and okalloc
     R.add(rule, config, hk, "corr(i,j)=cov(i,j)/sqrt(cov(i,i)cov(j,j))", ok, "" if ok else msg, hb.j["span"])
-    R.floor(rule, config, 2, "accessor + element formula")
+    # every element is written: the write lies on every path through the innermost loop body
+    wblocks = set()
+    for bi, si, st in hb.stmts():
+        if st["k"] == "assign" and st["place"]["proj"] and st["place"]["proj"][0]["k"] == "deref" and len(st["place"]["proj"]) == 1:
+            ptr = ev.lookup(env, (st["place"]["l"], ()), (bi, si))
+            while ptr[0] == "update":
+                ptr = ptr[1]
+            if ptr[0] == "call" and ptr[1].endswith("IndexMut::index_mut"):
+                wblocks.add(bi)
+    loops = hb.natural_loops()
+    okw = False
+    msgw = "no element write inside a loop"
+    for wb in wblocks:
+        inner = [(h, blk) for h, blk in loops.items() if wb in blk]
+        if not inner:
+            continue
+        h, blk = min(inner, key=lambda x: len(x[1]))
+        # body entry: the Some edge of the loop's next()
+        entry = None
+        for lb in blk:
+            t = hb.blocks[lb]["term"]
+            if t["k"] == "call" and "fn" in t and callee_id(t["fn"]) == "std::iter::Iterator::next":
+                for c in consumers(hb, t["dest"]["l"]):
+                    if c["kind"] == "discr" and hb.blocks[c["block"]]["term"]["k"] == "switch" and c["block"] in blk:
+                        yes, no = variant_edge(hb, c["block"], "Some")
+                        if yes:
+                            cand = yes[0][1]
+                            # innermost loop: the one whose header region is closest
+                            if entry is None or len([x for x in hb.reachable(cand, avoid=[h]) if x in blk]) < len([x for x in hb.reachable(entry, avoid=[h]) if x in blk]):
+                                entry = cand
+        if entry is None:
+            msgw = "loop structure not recognised"
+            continue
+        r = hb.reachable(entry, avoid={wb})
+        okw = h not in r
+        if not okw:
+            msgw = "an iteration of the loop can skip writing the correlation entry (it keeps its initial value): the matrix is no longer the normalised covariance"
+    R.add(rule, config, hk, "every-entry-written", okw, "" if okw else msgw, hb.j["span"])
+    R.floor(rule, config, 3, "accessor + element formula + every entry written")
 
 
 def affine_in(t, x):
